@@ -63,8 +63,15 @@ class SpecNet(nn.Module):
     def __init__(self, spec):
         super().__init__()
         self.spec = spec
-        for name, d in spec['mods'].items():
-            self.add_module(name, build_module(d))
+        # canonical construction order (first use in the program), independent of the key order of the JSON
+        # document: module creation consumes the torch RNG, so the order decides the initial weights
+        order = []
+        for ins in spec['prog']:
+            if ins['op'] == 'call' and ins['m'] not in order:
+                order.append(ins['m'])
+        order += sorted(n for n in spec['mods'] if n not in order)
+        for name in order:
+            self.add_module(name, build_module(spec['mods'][name]))
 
     def forward(self, x):
         return self._run({0: x})
